@@ -18,6 +18,15 @@ CHECKS = {
         "instances is not yet a theorem (named open obligation) and is carried by the correspondence: random and exhaustive small programs, each "
         "also under permutations of every conjunction, model vs implementation on canonical answers + constraint truth tables; a brute-force "
         "ground-solution oracle (independent Robinson unifier) checks both inclusions."),
+    "C03": dict(text="Full-strength theorems about the Lean model of reify / ResultIterator::next / LResult::constraints for ALL substitutions, terms and "
+        "stores: every variable of an answer term is one of the _ variables created by reify (C03_closed, C03_closed_query); one reification "
+        "map for the whole answer, injective on the distinct free variables, so sharing across query variables is reported exactly (C03_names, "
+        "C03_untouched); every reported constraint mentions only variables that the reified state renames (C03_constraints_closed, repaired "
+        "D10); anyvars sees variables at any depth through lists, improper tails and compound fields (C03_anyvars_complete, repaired D9) and "
+        "constraints() returns exactly the reported constraints with an operand occurring in the term (C03_relevant_complete, C03_answer_shape). "
+        "Tied to the code by tree programs with structured query terms run on the real engine and in the model (terms + constraint truth "
+        "tables + per-variable constraints() diffed); oracle over the returned LResults: closedness, sharing against an independent Robinson "
+        "solver, constraints()/is_constrained() against an independent traversal."),
     "C05": dict(text="Full-strength theorems about the Lean model of the depth-first stream nodes (mplus_dfs, bind_dfs, lazy_bind_dfs, pause, delay, "
         "StreamEngine::step, Solver::next) and of DFSConj/DFSDisj/Conde-in-DFS/relation calls, generic in the state type, for ALL goal trees and "
         "ALL solver nesting levels: one step keeps the reference answer list exactly (C05_step); draining delivers it in order (C05_next); whenever "
